@@ -290,8 +290,9 @@ class Report:
     def set_deadline(self, seconds):
         self.deadline = self.t0 + seconds
 
-    def out_of_time(self):
-        if self.deadline is not None and time.time() > self.deadline:
+    def out_of_time(self, fraction=1.0):
+        """past the given fraction of the budget (a check with several phases gives each of them a share)"""
+        if self.deadline is not None and time.time() > self.t0 + (self.deadline - self.t0) * fraction:
             self.exhaustive = False
             return True
         return False
